@@ -103,7 +103,11 @@ StepF(s, act) ==
          \* what "nothing happens" means: PC advanced, IT advanced
          nop  == LET s1 == SetPC(s, AddInt(s.R.PC, f.len \div 8))
                  IN IF inIT THEN ITAdvanced(s1) ELSE s1
-     IN IF i.k = "unspec" THEN
+     IN IF i.k = "nopish" THEN
+          Result(s, "any", FALSE, "envelope:nop-or-unimplemented:" \o i.enc, f.x, TRUE, nop)
+        ELSE IF i.k = "unimpl" THEN
+          Result(s, IF pass THEN "unimpl" ELSE "any", FALSE, "envelope:unimplemented:" \o i.enc, f.x, ~pass, nop)
+        ELSE IF i.k = "unspec" THEN
           Result(s, "any", FALSE, "envelope:unspecified:" \o i.enc, f.x, ~pass, nop)
         ELSE IF i.unp \/ i.k = "unpred" THEN
           Result(s, "any", FALSE, "envelope:unpredictable:" \o i.enc, f.x, FALSE, nop)
